@@ -23,6 +23,10 @@ HARNESSES = [
          unwind=6, backends=["default", "kissat", "z3"],
          bound="1..10 (thorough: 28) groups, 1 KiB blocks, blocks per group 256..8192, descriptor size 32/64/256/512, "
                "meta_bg/sparse_super/sparse_super2/64bit, s_first_meta_bg, reserved GDT blocks, MASTER_SB_ONLY/SUPER_ONLY: all symbolic"),
+    dict(name="check_backup", src="check_backup.c", extra_src=["lib/ext2fs/closefs.c", "lib/ext2fs/blknum.c"],
+         funcs=["check_backup_super_block", "ext2fs_bg_has_super", "ext2fs_group_first_block2"],
+         unwind=8, unwindset=["test_root.0:6", "memcmp.0:17", "main.0:7", "main.1:17", "main.2:17"], backends=["default", "kissat"],
+         bound="1..6 groups; primary superblock, candidate backup superblock (all 1024 bytes each), fs flags, e2fsck flags/options symbolic"),
     dict(name="bg_has_super", src="bg_has_super.c",
          funcs=["ext2fs_bg_has_super", "test_root"],
          unwindset=["test_root.0:22", "ref_is_power.0:22"],
